@@ -21,10 +21,20 @@ func TestVerifReproC17MqttTakeover(t *testing.T) {
 	r := &vfC17MRig{cap: 2, held: map[string]*vfC17Cli{}, tookOver: map[string]bool{}, takingOver: map[string]bool{}, reconnected: map[string]bool{},
 		closedOnce: map[string]bool{}, cleanOf: map[string]bool{}}
 	r.cond = sync.NewCond(&r.mu)
-	spec := &Spec{Name: "vfc17", EGName: "vfc17", Port: 0, MaxAllowedConnection: 2}
-	r.b = newBroker(spec, newStorage(nil), r, func(string, string) ([]string, error) { return nil, nil })
+	spec := &Spec{Name: "vfc17", EGName: "vfc17", MaxAllowedConnection: 2}
+	for p := 0; p < 60 && r.b == nil; p++ {
+		spec.Port = uint16(10000 + (4242+p*7919)%22000)
+		r.b = newBroker(spec, newStorage(nil), r, func(string, string) ([]string, error) { return nil, nil })
+	}
+	if r.b == nil {
+		t.Fatalf("VF-INCONCLUSIVE no port")
+	}
 	defer r.b.close()
-	addr := fmt.Sprintf("127.0.0.1:%d", r.b.listener.Addr().(*net.TCPAddr).Port)
+	r.reg = vfC17RegistryOf(r.b)
+	if r.reg == nil {
+		t.Skip("registry view not available")
+	}
+	addr := fmt.Sprintf("127.0.0.1:%d", spec.Port)
 	dial := func(id string) (net.Conn, string) {
 		c, err := vfC17MDial(addr)
 		if err != nil {
@@ -43,10 +53,10 @@ func TestVerifReproC17MqttTakeover(t *testing.T) {
 	defer vfC17HardClose(b)
 	vfC17HardClose(a) // superseded socket
 	deadline := time.Now().Add(10 * time.Second)
-	for len(r.b.currentClients()) != 0 && time.Now().Before(deadline) {
+	for r.reg.size() != 0 && time.Now().Before(deadline) {
 		time.Sleep(time.Millisecond)
 	}
-	t.Logf("registry after the old connection's teardown: %v (the taken-over c0 is still connected)", r.b.currentClients())
+	t.Logf("registry after the old connection's teardown: %v (the taken-over c0 is still connected)", r.reg.ids())
 	c1, out1 := dial("c1")
 	defer vfC17HardClose(c1)
 	c2, out2 := dial("c2")
